@@ -11,7 +11,7 @@ from ..symex import SlotP, show, walk_parts
 
 # rendered receivers that never hold a table reference (one reason each)
 NO_TABLE = {"schema": "function schema qualifier", "_schema": "schema object", "as_type": "SQL type descriptor",
-            "_limit": "wrapped integer", "_offset": "wrapped integer", "_force_indexes": "index names", "_use_indexes": "index names"}
+            "_limit": "wrapped integer", "_offset": "wrapped integer"}
 
 
 def self_attr(e: ast.expr, selfname: str) -> str | None:
@@ -163,6 +163,9 @@ def _allowed_test(t) -> bool:
         return _allowed_test(t.operand)
     if isinstance(t, ast.BoolOp):
         return all(_allowed_test(v) for v in t.values)
+    if isinstance(t, ast.Compare) and all(isinstance(o, (ast.Is, ast.IsNot)) for o in t.ops) and not any(isinstance(n, ast.Call) for n in ast.walk(t)) \
+            and all(isinstance(c_, ast.Name) for c_ in t.comparators):
+        return True      # identity with a named marker object (`self.default is not _NO_DEFAULT`): a presence test like `is not None`
     if isinstance(t, ast.Compare):
         names = {n.id for n in ast.walk(t) if isinstance(n, ast.Name)}
         return all(isinstance(o, (ast.Is, ast.IsNot, ast.Eq, ast.NotEq, ast.In, ast.NotIn)) for o in t.ops) and not any(isinstance(n, ast.Call) for n in ast.walk(t)) \
@@ -170,6 +173,46 @@ def _allowed_test(t) -> bool:
     if isinstance(t, ast.Call) and isinstance(t.func, ast.Name) and t.func.id in ("isinstance", "hasattr", "callable"):
         return True
     return False
+
+
+def _tuple_store_arities(program: Program, c, attr: str) -> set:
+    """arities of the tuples that methods of c (and its subclasses / bases) put into self.<attr>: append((..)),
+    `+ [(..)]`, `+= [(..)]`, list displays and comprehensions; both branches of a conditional expression count"""
+    out = set()
+
+    def tuples_in(e):
+        if isinstance(e, ast.Tuple):
+            if not any(isinstance(x, ast.Starred) for x in e.elts):
+                out.add(len(e.elts))
+        elif isinstance(e, ast.IfExp):
+            tuples_in(e.body)
+            tuples_in(e.orelse)
+        elif isinstance(e, (ast.List, ast.Set)):
+            for x in e.elts:
+                tuples_in(x)
+        elif isinstance(e, (ast.ListComp, ast.GeneratorExp)):
+            tuples_in(e.elt)
+        elif isinstance(e, ast.BinOp) and isinstance(e.op, ast.Add):
+            tuples_in(e.left)
+            tuples_in(e.right)
+    classes = [k for k in program.all_classes() if k is c or k.is_subclass_of(c) or c.is_subclass_of(k)]
+    for k in classes:
+        for g in k.methods.values():
+            if not g.params or g.is_static or g.name == "replace_table":
+                continue
+            sn = g.params[0]
+            for n in ast.walk(g.node):
+                if isinstance(n, ast.Call) and isinstance(n.func, ast.Attribute) and n.func.attr in ("append", "add", "insert") and n.args \
+                        and isinstance(n.func.value, ast.Attribute) and n.func.value.attr == attr and isinstance(n.func.value.value, ast.Name) and n.func.value.value.id == sn:
+                    tuples_in(n.args[-1])
+                elif isinstance(n, ast.Call) and isinstance(n.func, ast.Attribute) and n.func.attr == "extend" and n.args \
+                        and isinstance(n.func.value, ast.Attribute) and n.func.value.attr == attr:
+                    tuples_in(n.args[0])
+                elif isinstance(n, (ast.Assign, ast.AugAssign)):
+                    tg = n.targets if isinstance(n, ast.Assign) else [n.target]
+                    if any(isinstance(t, ast.Attribute) and t.attr == attr and isinstance(t.value, ast.Name) and t.value.id == sn for t in tg):
+                        tuples_in(n.value)
+    return out
 
 
 def is_noop(f: FuncInfo) -> bool:
@@ -259,6 +302,29 @@ def check(program: Program, run: Run) -> None:
                         run.finding(f"C16/conditional-rewrite:{f.qualname}:{a5}", f"{f.qualname} rewrites a child only when `{ast.unparse(t)[:60]}` holds: children for which the test is false keep the old table "
                                     "(e.g. a subquery reports no fields of its own but contains references)", where=f.loc(n), rule="R5")
                 x = par
+    # R7: a container of tuples ((term, order), (field, value), ...) rebuilt element by element keeps every member of the
+    # element: a rebuild that writes k-tuples where a builder stores longer ones silently drops the extra members
+    ntup = 0
+    for f in defs:
+        if f is noop or f.cls is None:
+            continue
+        sn = f.params[0]
+        for n in ast.walk(f.node):
+            if not (isinstance(n, ast.Assign) and len(n.targets) == 1 and isinstance(n.targets[0], ast.Attribute) and isinstance(n.targets[0].value, ast.Name)
+                    and isinstance(n.value, (ast.ListComp, ast.GeneratorExp)) and isinstance(n.value.elt, ast.Tuple)):
+                continue
+            a7 = n.targets[0].attr
+            k7 = len(n.value.elt.elts)
+            if any(isinstance(x, ast.Starred) for x in n.value.elt.elts):
+                continue        # `(x[0].replace_table(..), *x[1:])` keeps whatever follows
+            stores = _tuple_store_arities(program, f.cls, a7)
+            ntup += 1
+            ok7 = not stores or max(stores) <= k7
+            run.ob("C16/R7 element tuples are rebuilt with all their members", f"{f.qualname}:{a7}", ok7, detail=f"rebuilt as {k7}-tuples, stored as {sorted(stores)}", where=f.loc(n))
+            if not ok7:
+                run.finding(f"C16/element-truncated:{f.cls.qualname}:{a7}", f"{f.qualname} rebuilds the elements of {a7} as {k7}-tuples while a builder stores {max(stores)}-tuples there: "
+                            "the extra members are dropped by replace_table, so the result differs from the same construction carried out with the new table", where=f.loc(n), rule="R7")
+    run.analysed["tuple_container_rebuilds"] = ntup
     # R5b: leaving replace_table early skips every rewrite below.  `current_table == new_table` is not a reason to: equality
     # of tables (name, schema, alias) is coarser than their rendering (the temporal FOR clause), so an "equal" replacement
     # can still change the SQL.  Only identity / None / type tests may guard an early exit.
@@ -395,6 +461,15 @@ def check(program: Program, run: Run) -> None:
         rewritten, leaves, shallow = rewritten_attrs(rf, bc)
         for a in sorted(rendered):
             ok = a in rewritten and a in rewritten[a]
+            if not ok:
+                # elements of a class that holds no table at all (its replace_table is the inherited no-op, which R1
+                # accepts only for classes that render no child): nothing to rewrite
+                from .c07 import _child_classes
+                kinds = _child_classes(program, bc, a)
+                if kinds and all(k2.resolve("replace_table") is noop for k in kinds for k2 in program.all_classes() if k2 is k or k2.is_subclass_of(k)):
+                    run.ob("C16/R2 clause attribute holds objects without table references", f"{bn}.{a}", True,
+                           detail=",".join(sorted(k.qualname for k in kinds)), where=rf.loc(), nontrivial=False)
+                    continue
             run.ob("C16/R2 clause attribute rewritten by the statement's replace_table", f"{bn}.{a}", ok, where=rf.loc())
             if not ok:
                 part = rendered[a]
